@@ -1,8 +1,9 @@
 import RasnModel.Basic.Sexp
 import RasnModel.Lexer.Input
+import RasnModel.Lexer.Context
 /- line-protocol handlers for C17 -/
 namespace Driver.C17
-open Sexp Lexer.Input
+open Sexp Lexer.Input Lexer.Context
 
 def bytesOf (s : Sexp) : Option Bytes := (asText s).map fun t => t.toUTF8.toList
 
@@ -40,6 +41,60 @@ def handleReport : List Sexp → String
         (if cPath == isFile then [] else ["contextualize-path-presence"])
       if errs.isEmpty then "ok" else "bad:" ++ "/".intercalate errs
     | _, _, _, _, _, _, _, _, _, _ => "bad-request"
+  | _ => "bad-request"
+
+def parseEntry : Sexp → Option Entry
+  | .list [l, t, m] => do pure ⟨← asNat l, ← bytesOf t, ← asBool m⟩
+  | _ => none
+
+def showEntry (e : Entry) : String := s!"({e.label} x{hexOfBytes e.text} {if e.marked then "t" else "f"})"
+
+def isPrefixB : Bytes → Bytes → Bool
+  | [], _ => true
+  | _ :: _, [] => false
+  | a :: as, b :: bs => a == b && isPrefixB as bs
+
+def isInfixB (a : Bytes) : Bytes → Bool
+  | [] => a.isEmpty
+  | b :: bs => isPrefixB a (b :: bs) || isInfixB a bs
+
+def increasing : List Nat → Bool
+  | a :: b :: rest => a < b && increasing (b :: rest)
+  | _ => true
+
+/-- SPEC verdict on an excerpt (list of entries) for a report:
+    every entry shows (part of) the source line whose number it carries, labels increase, and the
+    marked entries are exactly one entry, labelled with the reported line -/
+def judgeExcerpt (src : Bytes) (ctxOff ctxLine off line : Nat) (es : List Entry) : List String :=
+  let covered := ((src.drop ctxOff).take (off - ctxOff + 1))
+  let k := countNL ((src.drop ctxOff).take (off - ctxOff))
+  let reportLineShown := !(blank ((splitLines covered).getD k []))
+  (if increasing (es.map (·.label)) then [] else ["labels-not-increasing"]) ++
+  (es.filterMap fun e =>
+    let want := sourceLine src e.label
+    if e.text.isEmpty then some s!"entry-{e.label}-is-empty"
+    else if e.label == ctxLine then (if isInfixB e.text want then none else some s!"entry-{e.label}-is-not-part-of-source-line-{e.label}")
+    else if isPrefixB e.text want then none else some s!"entry-{e.label}-does-not-show-source-line-{e.label}") ++
+  (if !reportLineShown then []
+   else match es.filter (·.marked) with
+     | [e] => if e.label == line then [] else [s!"marked-entry-labelled-{e.label}-report-line-{line}"]
+     | [] => ["no-entry-marked"]
+     | _ => ["several-entries-marked"])
+
+/-- `c17ctx <src> <ctxOff> <ctxLine> <off> <line> ( (label text marked) … )`
+    ↦ `<model excerpt> | <verdict on the implementation's excerpt> | <class>` -/
+def handleCtx : List Sexp → String
+  | [src, ctxOff, ctxLine, off, line, .list es] =>
+    match bytesOf src, asNat ctxOff, asNat ctxLine, asNat off, asNat line, es.mapM parseEntry with
+    | some src, some ctxOff, some ctxLine, some off, some line, some es =>
+      let m := contextualize src ctxOff ctxLine off line
+      let errs := judgeExcerpt src ctxOff ctxLine off line es
+      let dom := ctxOff ≤ off && off ≤ src.length && ctxLine == 1 + countNL (src.take ctxOff) && line == 1 + countNL (src.take off)
+      let covered := ((src.drop ctxOff).take (off - ctxOff + 1))
+      let k := countNL ((src.drop ctxOff).take (off - ctxOff))
+      let cls := if !dom then "outside-dom" else if blank ((splitLines covered).getD k []) then "report-line-blank" else "judged"
+      " ".intercalate (m.map showEntry) ++ " | " ++ (if errs.isEmpty then "ok" else "bad:" ++ "/".intercalate errs) ++ " | " ++ cls
+    | _, _, _, _, _, _ => "bad-request"
   | _ => "bad-request"
 
 end Driver.C17
